@@ -30,7 +30,7 @@ ENCODED = [
     "menelaus.partitioners.KDQTreePartitioner:KDQTreeNode.reset", "menelaus.partitioners.KDQTreePartitioner:KDQTreeNode.as_flattened_array",
 ]
 BOUNDS = {
-    "quick": "build: n<=4 symbolic points in 1-D and 2-D, count_ubound in {1,2}; fill: <=2 calls of <=2 symbolic points under "
+    "quick": "build: n<=4 symbolic points in 1-D and 2-D (n=3 in 3-D), count_ubound in {1,2}; fill: <=2 calls of <=2 symbolic points under "
              "two ids with and without reset; _distn_from_counts: k<=4 symbolic counts",
     "thorough": "n<=5 (1-D), fill calls of <=3 points",
 }
